@@ -6,6 +6,7 @@ import (
 	"image"
 	"image/color"
 	"image/png"
+	"strings"
 
 	helpers "github.com/SKAARHOJ/rawpanel-lib"
 	monogfx "github.com/SKAARHOJ/rawpanel-lib/ibeam_lib_monogfx"
@@ -23,6 +24,10 @@ import (
 //        A = CreateImgObjectFrom{RGB,Gray}Bytes(W,H,data)   (`none` for mono)
 //        B = RwpImgToImage(gfx, W, H)      C = RwpImgToImage(gfx, tw, th)
 //        P = image/png.Decode(ConvertGfxStateToPngBytes(state))   (`nopng` when the bytes do not decode)
+//   pix.gfxo type W H tw th xyoffset X Y data | A B C P
+//        the same with the placement fields XYoffset / X / Y of the message set (where a panel puts the image on its
+//        display; the conversions must not read them: routines agree, centred placement on the target canvas)
+//   pix.obj op...                       | one token per call          (ONE MonoImg used more than once; see objOp)
 // an image is printed as one token  <w>x<h>:<RGBA hex, row major>  (`-` for no pixels)
 
 type pixExec struct{}
@@ -66,6 +71,59 @@ func usedDestination() *monogfx.MonoImg {
 	return d
 }
 
+// mono images that have been in use and hold a canvas of exactly the byte size a w x h image needs, every bit set:
+// the same size, and another shape with the same number of bytes (8 columns x ceil(w/8)*h rows)
+func usedSameSize(w, h int) []*monogfx.MonoImg {
+	mk := func(w2, h2 int) *monogfx.MonoImg {
+		d := &monogfx.MonoImg{}
+		d.NewImage(w2, h2)
+		d.FillRect(0, 0, w2, h2, true)
+		d.SetOLEDPixelColor(0b110011)
+		d.SetOLEDBckgColor(0b001100)
+		return d
+	}
+	o := []*monogfx.MonoImg{mk(w, h)}
+	if n := wib(w) * h; n > 0 && n <= 4096 {
+		o = append(o, mk(8, n))
+	}
+	return o
+}
+
+// one call on the object of a pix.obj record; returns the token printed for it
+func objOp(img *monogfx.MonoImg, tok string) string {
+	f := strings.Split(tok, ":")
+	canv := func() string { return fmt.Sprintf("%d:%d:%s", img.Width, img.Height, hx(img.GetImgSlice())) }
+	cols := func() string { return fmt.Sprintf("%d:%d", img.OLEDPixelColor, img.OLEDBckgColor) }
+	switch f[0] {
+	case "P":
+		img.SetOLEDPixelColor(atoi(f[1]))
+		return cols()
+	case "K":
+		img.SetOLEDBckgColor(atoi(f[1]))
+		return cols()
+	case "N":
+		img.NewImage(atoi(f[1]), atoi(f[2]))
+	case "B":
+		_ = img.CreateFromBytes(atoi(f[1]), atoi(f[2]), append([]byte{}, unhx(f[3])...))
+	case "F":
+		img.FillRect(atoi(f[1]), atoi(f[2]), atoi(f[3]), atoi(f[4]), abool(f[5]))
+	case "I":
+		img.CreateFromImage(monoFromBits(atoi(f[1]), atoi(f[2]), unhx(f[4])).ConvertToImage(abool(f[3])))
+	case "J":
+		im := image.NewRGBA(image.Rect(0, 0, atoi(f[1]), atoi(f[2])))
+		copy(im.Pix, unhx(f[3]))
+		img.CreateFromImage(im)
+	case "T":
+		img.CreateFromImage(img.ConvertToImage(abool(f[1])))
+	case "E":
+		rgb, gray := img.GetImgSliceRGB(), img.GetImgSliceGray()
+		return cols() + ":" + canv() + ":" + hx(rgb) + ":" + hx(gray)
+	default:
+		panic("unknown call " + tok)
+	}
+	return canv()
+}
+
 func (e *pixExec) Exec(cmd string, a []string) string {
 	res := ""
 	p := guarded(func() {
@@ -91,7 +149,8 @@ func (e *pixExec) Exec(cmd string, a []string) string {
 			back := &monogfx.MonoImg{}
 			back.CreateFromImage(im)
 			res = fmt.Sprintf("%s %d %d %s", imgTok(im), back.Width, back.Height, hx(back.GetImgSlice()))
-			if used := usedDestination(); true { // the same conversion into an object that already holds an image
+			// the same conversion into objects that already hold an image (a larger one; one of exactly the same byte size)
+			for _, used := range append(usedSameSize(w, h), usedDestination()) {
 				used.CreateFromImage(im)
 				if r2 := fmt.Sprintf("%s %d %d %s", imgTok(im), used.Width, used.Height, hx(used.GetImgSlice())); r2 != res {
 					res = r2
@@ -104,17 +163,28 @@ func (e *pixExec) Exec(cmd string, a []string) string {
 			back := &monogfx.MonoImg{}
 			back.CreateFromImage(im)
 			res = fmt.Sprintf("%d %d %s", back.Width, back.Height, hx(back.GetImgSlice()))
-			if used := usedDestination(); true {
+			for _, used := range append(usedSameSize(w, h), usedDestination()) {
 				used.CreateFromImage(im)
 				if r2 := fmt.Sprintf("%d %d %s", used.Width, used.Height, hx(used.GetImgSlice())); r2 != res {
 					res = r2
 				}
 			}
-		case "pix.gfx":
+		case "pix.obj":
+			img := &monogfx.MonoImg{}
+			outs := make([]string, len(a))
+			for i, op := range a {
+				outs[i] = objOp(img, op)
+			}
+			res = strings.Join(outs, " ")
+		case "pix.gfx", "pix.gfxo":
 			t, W, H, tw, th := atoi(a[0]), atoi(a[1]), atoi(a[2]), atoi(a[3]), atoi(a[4])
-			data := unhx(a[5])
+			data := unhx(a[len(a)-1])
 			mk := func() *rwp.HWCGfx {
-				return &rwp.HWCGfx{ImageType: rwp.HWCGfx_ImageTypeE(t), W: uint32(W), H: uint32(H), ImageData: append([]byte{}, data...)}
+				g := &rwp.HWCGfx{ImageType: rwp.HWCGfx_ImageTypeE(t), W: uint32(W), H: uint32(H), ImageData: append([]byte{}, data...)}
+				if cmd == "pix.gfxo" {
+					g.XYoffset, g.X, g.Y = abool(a[5]), uint32(atoi(a[6])), uint32(atoi(a[7]))
+				}
+				return g
 			}
 			A := "none"
 			switch rwp.HWCGfx_ImageTypeE(t) {
@@ -210,7 +280,99 @@ func target(r *Rng, d int) int {
 }
 
 func emitGfx(r *Rng, t, W, H, n int) {
+	if r.Chance(30) {
+		// every field of the message set: the placement fields are for the panel's display, not for the conversions
+		xyo := r.Chance(75)
+		X, Y := r.Pick(0, 1, 2, 3, r.Range(0, W+4), 4000000000), r.Pick(0, 1, 2, r.Range(0, H+4))
+		if r.Chance(50) && X == 0 && Y == 0 {
+			X = 1
+		}
+		emit("pix.gfxo", t, W, H, target(r, W), target(r, H), xyo, X, Y, gfxData(r, n))
+		return
+	}
 	emit("pix.gfx", t, W, H, target(r, W), target(r, H), gfxData(r, n))
+}
+
+// ---- one object used more than once: every order of {set colours, (re)create, draw, export} ----
+
+func genPixObj(r *Rng, maxW, maxH int) {
+	ops := []string{}
+	w, h := -1, -1 // size of the canvas the object holds (-1: none yet)
+	size := func() (int, int) {
+		if w >= 0 && wib(w)*h > 0 && r.Chance(55) {
+			// exactly the byte size the object already holds: same size, another width in the same byte column, or the
+			// transposed shape
+			switch r.Intn(3) {
+			case 0:
+				return w, h
+			case 1:
+				return 8*(wib(w)-1) + r.Range(1, 8), h
+			default:
+				if h <= 8 {
+					return 8 * h, wib(w)
+				}
+				return w, h
+			}
+		}
+		if r.Chance(12) {
+			return r.Pick(0, 1, 8, 9), r.Pick(0, 1, 2)
+		}
+		return r.Range(0, maxW), r.Range(0, maxH)
+	}
+	rgba := func(n int) []byte {
+		px := r.Bytes(n * 4)
+		for j := 0; j < len(px); j += 4 {
+			px[j] = byte(r.Pick(0, 1, 127, 128, 255, int(px[j])))
+		}
+		return px
+	}
+	n := r.Range(3, 9)
+	for k := 0; k < n; k++ {
+		switch r.Intn(20) {
+		case 0, 1, 2:
+			ops = append(ops, fmt.Sprintf("P:%d", r.Intn(64)+64*r.Pick(0, 0, 0, 1, 2, 3)))
+		case 3, 4, 5:
+			ops = append(ops, fmt.Sprintf("K:%d", r.Intn(64)+64*r.Pick(0, 0, 0, 1, 2, 3)))
+		case 6, 7:
+			w, h = size()
+			ops = append(ops, fmt.Sprintf("N:%d:%d", w, h))
+		case 8, 9:
+			w, h = size()
+			need := wib(w) * h
+			l := need
+			switch r.Intn(5) {
+			case 0:
+				l = r.Range(0, need)
+			case 1:
+				l = need + r.Range(1, 12)
+			}
+			ops = append(ops, fmt.Sprintf("B:%d:%d:%s", w, h, hx(pixBits(r, l))))
+		case 10, 11, 12:
+			w, h = size()
+			ops = append(ops, fmt.Sprintf("I:%d:%d:%s:%s", w, h, b01(r.Bool()), hx(pixBits(r, wib(w)*h))))
+		case 13:
+			w, h = size()
+			ops = append(ops, fmt.Sprintf("J:%d:%d:%s", w, h, hx(rgba(w*h))))
+		case 14:
+			ops = append(ops, fmt.Sprintf("T:%s", b01(r.Bool())))
+		case 15, 16:
+			if w >= 0 && r.Chance(60) {
+				ops = append(ops, fmt.Sprintf("F:0:0:%d:%d:1", w, h)) // every bit of the canvas set
+			} else {
+				ops = append(ops, fmt.Sprintf("F:%d:%d:%d:%d:%s", r.Range(-2, 10), r.Range(-2, 6), r.Range(0, 20), r.Range(0, 10), b01(r.Chance(70))))
+			}
+		default:
+			ops = append(ops, "E")
+		}
+	}
+	if ops[len(ops)-1] != "E" {
+		ops = append(ops, "E")
+	}
+	args := make([]interface{}, len(ops))
+	for i, o := range ops {
+		args[i] = o
+	}
+	emit("pix.obj", args...)
 }
 
 func genC17(r *Rng, n int, tier string) {
@@ -272,6 +434,10 @@ func genC17(r *Rng, n int, tier string) {
 			}
 		}
 		emit("pix.fromimg", w, h, px)
+	}
+	// one object used for several images: colours set before / after (re)creation, conversions into a used destination
+	for i := 0; i < n/2; i++ {
+		genPixObj(r, 24, 12)
 	}
 	// (4) graphics states. Small images: every data length from 0 to two bytes more than needed.
 	sw, sh := 6, 3
